@@ -5,7 +5,7 @@ import TF.Proofs.GenBridgeSponge
 `Loops.f_ok` is true iff no plain arithmetic operation of the regenerated `f` overflows, no index is out of range, no
 `try_into().unwrap()` / `pop().unwrap()` fails and every `assert!` holds.  Proved here: `tip5_permutation_ok` on every
 canonical 16-word state (so debug and release builds agree on it), and from it the flags of `squeeze`, `absorb`,
-`sample_scalars` on every canonical state / block.
+`sample_scalars`, `pad_and_absorb_all` and `hash_varlen` on every canonical state / block / input.
 -/
 set_option linter.unusedVariables false
 namespace TF.GenBridge.SpongeOk
@@ -283,5 +283,71 @@ theorem absorb_ok {st block : List Nat} (hl : st.length = 16) (hc : CanonL st) (
 theorem sample_scalars_ok {st : List Nat} (hl : st.length = 16) (hc : CanonL st) (num : Nat)
     (hnum : num * 3 < 18446744073709551616) : Loops.tip5_sample_scalars_ok (enc st) num = true :=
   (gen_sample_scalars_eq hl hc num hnum).2 (fun s h1 h2 => permutation_ok_enc h1 h2)
+
+/-! ### `pad_and_absorb_all`, `hash_varlen` -/
+
+theorem pad_for_ok : ∀ (cs : List (List Nat)) (st : List Nat), st.length = 16 → CanonL st →
+    (∀ c ∈ cs, c.length = 10 ∧ CanonL c) →
+    Loops.tip5_pad_and_absorb_all_for_ok (cs.map enc) (enc st) = true := by
+  intro cs
+  induction cs with
+  | nil => intro st _ _ _; rfl
+  | cons c cs ih =>
+    intro st hl hc hcs
+    have hc1 := hcs c (List.mem_cons_self)
+    have ha := gen_absorb_eq hl hc hc1.1 hc1.2
+    have h1 : ((enc c).length == 10) = true := by rw [enc_length, hc1.1]; rfl
+    have h2 := absorb_ok hl hc hc1.1 hc1.2
+    have h3 := ih (absorb permV st c) ha.2.2 ha.2.1 (fun c' hc' => hcs c' (List.mem_cons_of_mem _ hc'))
+    rw [List.map_cons, Loops.tip5_pad_and_absorb_all_for_ok]
+    show (((enc c).length == 10) && (Loops.tip5_absorb_ok (enc st) (enc c) &&
+      Loops.tip5_pad_and_absorb_all_for_ok (cs.map enc) (Loops.tip5_absorb (enc st) (enc c)))) = true
+    rw [h1, h2, ha.1, h3]; rfl
+
+theorem pad_and_absorb_all_ok {st input : List Nat} (hl : st.length = 16) (hc : CanonL st) (hi : CanonL input)
+    (hlen : input.length + 10 < 2 ^ 64) : Loops.tip5_pad_and_absorb_all_ok (enc st) (enc input) = true := by
+  have hf := pad_for_ok (padBlocks input) st hl hc (padBlocks_canon hi)
+  have hnm : nextMultipleOf (input.length + 1) RATE < 2 ^ 64 := by
+    rw [nextMultipleOf_eq]
+    have := (padK_spec input.length).1
+    rw [RATE_eq] at this
+    omega
+  have hnm' : nextMultipleOf (input.length + 1) RATE < 18446744073709551616 := by simpa using hnm
+  have e0 : (enc input).length + 1 = input.length + 1 := by rw [enc_length]
+  have e1 : (input.length + 1) % 18446744073709551616 = input.length + 1 := by
+    apply Nat.mod_eq_of_lt; omega
+  have e2 : TF.RustIter.nextMultipleOf (input.length + 1) 10 = nextMultipleOf (input.length + 1) RATE := rfl
+  have c1 : decide (input.length + 1 < 18446744073709551616) = true := decide_eq_true (by omega)
+  have c2 : decide (nextMultipleOf (input.length + 1) RATE < 18446744073709551616) = true := decide_eq_true hnm'
+  unfold Loops.tip5_pad_and_absorb_all_ok
+  simp only [e0, e1, e2, c1, c2]
+  rw [Nat.mod_eq_of_lt hnm', padded_enc]
+  unfold TF.RustIter.chunks
+  rw [enc_length, chunks_enc]
+  have hf' : Loops.tip5_pad_and_absorb_all_for_ok (List.map enc (chunksOf 10 (padded input).length (padded input))) (enc st)
+      = true := hf
+  rw [hf']; rfl
+
+/-- `hash_varlen`: no check fails on any canonical input that fits in memory -/
+theorem hash_varlen_ok {input : List Nat} (hi : CanonL input) (hlen : input.length + 10 < 2 ^ 64) :
+    Loops.tip5_hash_varlen_ok (enc input) = true := by
+  have hil : initState.length = 16 := by decide
+  have hic : CanonL initState := by
+    intro x hx
+    rw [List.eq_of_mem_replicate (show x ∈ List.replicate 16 0 from hx)]; unfold Pn; omega
+  have hp := gen_pad_and_absorb_all_eq hil hic hi hlen
+  have h1 := hp.1
+  rw [padAndAbsorbAll_eq] at h1
+  simp only [Option.map_some, Option.some.injEq] at h1
+  have hsq := gen_squeeze_eq hp.2.2 hp.2.1
+  unfold Loops.tip5_hash_varlen_ok
+  rw [gen_init_eq.1, gen_init_eq.2]
+  simp only [Option.elim_some, Bool.true_and]
+  rw [pad_and_absorb_all_ok hil hic hi hlen, h1, squeeze_ok hp.2.2 hp.2.1, hsq.1]
+  simp only [squeeze, Bool.true_and]
+  have hl10 : (enc (List.take RATE (List.foldl (absorb permV) initState (padBlocks input)))).length = 10 := by
+    rw [enc_length, List.length_take, hp.2.2]; rfl
+  simp only [hl10, List.length_take]
+  decide
 
 end TF.GenBridge.SpongeOk
